@@ -6,25 +6,34 @@ SPEC = dict(
     level="exploration",
     level_text=("seeded search over (host key, start instant, sampling schedule, stop/restart plan) trajectories of the real "
                 "certManager on a virtual clock, and over generated certificate/hash-list pairs presented to the real "
-                "verifyRawCerts at drawn clock offsets; per-sample oracles derived from the statement. Sampling, not proof."),
+                "verifyRawCerts at drawn clock offsets, and over dialled addresses (1-4 certhashes: served / next / previous / "
+                "stale / foreign / bogus, positions drawn) with the real dialer against the real listener across roll-overs "
+                "and restarts; oracles derived from the statement. Sampling, not proof."),
     level_note=("trusted: testing/synctest fake clock (benbjohnson/clock.New() is a thin wrapper over package time, hence "
                 "virtual inside the bubble), crypto/x509 parsing of the served leaf, the harness oracles; the harness is "
-                "compiled into the package under test through a build overlay, /repo is not modified; simulated_time_s is a lower "
+                "compiled into the package under test through a build overlay, /repo is not modified; the dial stratum is "
+                "message level: quic-go, http3, webtransport-go and Noise run un-instrumented inside the bubble over the in-memory "
+                "UDP network github.com/marcopolo/simnet (fault free), only dial outcomes are observed; simulated_time_s is a lower "
                 "bound (each worker stops adding after 140 years so that the worker's int64 nanosecond sum cannot wrap)"),
-    technique="deterministic simulation: real certManager + verifyRawCerts in a synctest bubble, in-package harness via overlay, sampled-instant oracles",
+    technique="deterministic simulation: real certManager, verifyRawCerts and WebTransport dialer/listener in a synctest bubble, in-package harness via overlay, sampled-instant and dial-outcome oracles",
     design_ref="DESIGN.md section 6 (C18)",
     quick_s=30, thorough_s=300,
-    rule=("one run = one tape. Stratum T (3/4): tape-derived Ed25519 host key (=> bucket offset), optional epoch shift, start "
+    rule=("one run = one tape. Stratum T (3/5): tape-derived Ed25519 host key (=> bucket offset), optional epoch shift, start "
           "instant drawn relative to the key's bucket grid (exactly on / +-1ns / +-1ms / +-1s / within +-skew of a roll-over "
           "instant, a bucket boundary or a certificate expiry, or uniform in a period), 1-14 sampling advances (1ns .. one "
           "period; biased to land exactly on, 1ns before, 1ns after, +-skew around the next roll-over instant) across at most "
           "maxRoll in 0..6 roll-overs with never more than one switch between consecutive samples, 0-2 Close()+restart with the "
           "same key after a drawn gap (0 .. four periods, or aimed at a roll-over instant); all oracles at every sample. "
-          "Stratum V (1/4): 1-6 certificate/hash-list pairs at drawn clock offsets (valid incl. boundary instants and exactly "
+          "Stratum V (1/5): 1-6 certificate/hash-list pairs at drawn clock offsets (valid incl. boundary instants and exactly "
           "14 days; hash absent / other multihash function / same digest under another code / flipped bit / truncated; "
           "expired; not yet valid; > 14 days; RSA PKCS#1, RSA-PSS, RSA subject key; empty chain; two-certificate chains), "
-          "verdict compared with the statement's rule. non-trivial = T: >=2 samples and (>=1 roll-over observed or >=1 "
-          "restart), V: >=1 pair judged; distinct = distinct signature (start offset, per-sample incarnation / certificate "
+          "verdict compared with the statement's rule. Stratum D (1/5): real server transport (Listen) and client transport "
+          "(Dial) on an in-memory UDP network inside the bubble; server start drawn like in T; 1-7 events: advance (as in T), "
+          "server restart with the same key, dial of an address exactly as learned at a drawn earlier sample, dial of a "
+          "composed address with 1-4 certhashes drawn from {served, next, previous, own certificate of a period two away, "
+          "another host's certificate, hash of nothing} at drawn positions; every dial judged against the server's served "
+          "certificate and SerializedCertHashes() before and after it; all T oracles at every sample of the server's manager. "
+          "non-trivial = T: >=2 samples and (>=1 roll-over observed or >=1 restart), V: >=1 pair judged, D: >=1 dial judged; distinct = distinct signature (start offset, per-sample incarnation / certificate "
           "index / instant / advertised-set sizes, restart gaps; per-pair features and verdict)"),
     probes=["sample-exactly-at-rollover-instant", "sample-1ns-before-rollover", "sample-1ns-after-rollover",
             "start-exactly-on-rollover-instant", "start-within-skew-of-boundary",
@@ -33,13 +42,19 @@ SPEC = dict(
             "learned-addr-checked-across-restart", "restart-drops-previous-period-hash", "rollovers>=3", "rollovers>=6",
             "verifier-valid", "verifier-hash-not-listed-as-sha2-256", "verifier-expired", "verifier-not-yet-valid",
             "verifier-lifetime-over-14-days", "verifier-rsa", "verifier-rsa-pss", "verifier-rsa-subject-key",
-            "verifier-empty-chain", "verifier-chain-pinned-cert-not-first"],
+            "verifier-empty-chain", "verifier-chain-pinned-cert-not-first",
+            "dial-completed", "dial-refused-served-certificate-not-pinned", "dial-refused-unconfirmed-hash",
+            "dial-refused-unconfirmed-hash-before-genuine-last", "dial-learned-address-in-following-period",
+            "dial-learned-address-refused-after-restart-or-expiry"],
     real=["p2p/transport/webtransport: certManager (cert_manager.go), generateCert/getTLSConf/verifyRawCerts (crypto.go), "
-          "extractCertHashes/addrComponentForCert (multiaddr.go)", "benbjohnson/clock (real clock on the bubble's fake time)",
+          "extractCertHashes/addrComponentForCert (multiaddr.go), transport.dial/upgrade + listener (dial stratum)", "quicreuse (reuseport disabled), quic-go, quic-go/http3, webtransport-go, p2p/security/noise (un-instrumented, dial stratum)", "benbjohnson/clock (real clock on the bubble's fake time)",
           "crypto/x509, crypto/ecdsa, filippo.io/keygen, x/crypto/hkdf"],
-    stubs=[],
+    stubs=["UDP: github.com/marcopolo/simnet in-memory network, 1 ms latency, no loss (dial stratum)"],
     assume=["synctest fake clock and quiescence detection (Go 1.25.7)",
-            "gap: the dialer's in-handshake confirmation of the certificate hashes (transport.upgrade) needs a live WebTransport "
-            "session and is not executed; it is modelled at the level of hash sets (learned address subset of SerializedCertHashes)"],
+            "dial stratum: the outcome of a fault-free dial (completed / refused at TLS / refused in Noise) does not depend on the "
+            "runtime's goroutine interleaving (checked by VERIF_SELFTEST and ./check selftest); dials never start within 5 s before a roll-over",
+            "gap: the server in the dial stratum is honest; a relay that owns the certificate behind an injected certhash and pipes the "
+            "session to the real server (byzantine path) is not simulated - only the dialer's rule 'every certhash of the dialled address "
+            "must be confirmed' is checked against honest servers"],
 )
 ENABLED = True
